@@ -360,6 +360,7 @@ func init() {
 }
 
 func runC08(c *rt.Ctx) {
+	soloRun(c, "size")
 	sizeScanContract(c)
 	c.SetRule("for each of the 18 units and the empty unit: every value within +-1000 of floor((2^64-1)/multiplier) and of 0, all 2^k and 10^k, seeded values, through New[uint64] and the text parser; one mathematical value offered through all 12 numeric kinds and 12 derived types (negative, fractional, NaN, +-Inf, -0, 2^24+-1, 2^53+-1, 2^63, 2^64, kind maxima); " +
 		"grammar-generated texts with every separator kind/count and 0-3 surrounding spaces, negative/fraction/exponent/mangled-unit texts; Bytes[N] for 18 types at 0, each kind's max and max+1, float mantissa boundaries, 2^64-2048..2^64-1 and seeded values; constraint.Max/Min/SizeBits/IsSigned/IsFloat against math constants. " +
@@ -474,6 +475,70 @@ func runC08(c *rt.Ctx) {
 	})
 	c.Require("kinds-sweep", 1)
 	c.Require("number-literal-texts", 30)
+	// a number and a unit in every form a size can be written in: New, text, JSON string form, JSON object form in both
+	// key orders and through encoding/json - one arithmetic (the four units beyond 64 bits take zero only, in every form)
+	c.Serial("number-and-unit-in-every-form", func(w *rt.W) {
+		type doc struct {
+			S size.Size `json:"s"`
+		}
+		nums := []uint64{0, 1, 5, 1000, 1024, 17, 18014398509481984, 18446744073709551615}
+		for _, u := range ref.AllUnits {
+			for _, n := range nums {
+				want, accept := ref.SizeProduct(new(big.Int).SetUint64(n), u)
+				forms := map[string]func() (size.Size, error){
+					"New":               func() (size.Size, error) { return size.New(n, u) },
+					"text":              func() (size.Size, error) { return size.DefaultParser(fmt.Sprint(n, u), 0) },
+					"text with a space": func() (size.Size, error) { return size.DefaultParser(fmt.Sprint(n, " ", u), 0) },
+					"JSON string form": func() (size.Size, error) {
+						return size.DefaultParser(fmt.Sprintf("%q", fmt.Sprint(n, u)), size.RuleEnableJSONStringForm)
+					},
+					"JSON object form": func() (size.Size, error) {
+						return size.DefaultParser(fmt.Sprintf(`{"value":%d,"unit":%q}`, n, u), size.RuleEnableJSONObjectForm)
+					},
+					"JSON object form, unit first": func() (size.Size, error) {
+						return size.DefaultParser([]byte(fmt.Sprintf(`{"unit":%q,"value":%d}`, u, n)), size.RuleEnableJSONObjectForm)
+					},
+					"Size.UnmarshalJSON(object)": func() (size.Size, error) {
+						var z size.Size
+						err := z.UnmarshalJSON([]byte(fmt.Sprintf(`{"value":%d,"unit":%q}`, n, u)))
+						return z, err
+					},
+					"json.Unmarshal(object in a struct)": func() (size.Size, error) {
+						var d doc
+						err := json.Unmarshal([]byte(fmt.Sprintf(`{"s":{"unit":%q,"value":%d}}`, u, n)), &d)
+						return d.S, err
+					},
+					"Size.UnmarshalText": func() (size.Size, error) {
+						var z size.Size
+						err := z.UnmarshalText([]byte(fmt.Sprint(n, u)))
+						return z, err
+					},
+				}
+				for name, f := range forms {
+					if u == "" && strings.Contains(name, "object") {
+						continue // whether the object form takes an empty unit is C12's matter
+					}
+					var got size.Size
+					var err error
+					panicked, msg := rt.Call(func() { got, err = f() })
+					w.Eval(1)
+					args := rt.Args("form", name, "number", fmt.Sprint(n), "unit", u)
+					switch {
+					case panicked:
+						w.Fail("panic-number-and-unit", "forms", args, "panic: "+firstLine(msg), "a value or an error", "see key")
+					case accept && err != nil:
+						w.Fail("exact-product-refused-in-one-form", "forms", args, "err="+err.Error(), fmt.Sprint(want), name+" refuses a number and unit whose product is a size")
+					case accept && uint64(got) != want:
+						w.Fail("wrong-value-in-one-form", "forms", args, fmt.Sprint(uint64(got)), fmt.Sprint(want), name+" yields another value than number x unit")
+					case !accept && err == nil:
+						w.Fail("overflow-accepted-in-one-form", "forms", args, fmt.Sprint("accepted as ", uint64(got)), "an error", name+" accepts a product that is not a size")
+					}
+					w.ClassN("number-and-unit-in-every-form", 1)
+				}
+			}
+		}
+	})
+	c.Require("number-and-unit-in-every-form", 1000)
 
 	nTexts := c.Pick(600000, 30000000)
 	c.Parallel("texts", 0, func(w *rt.W) {
